@@ -165,3 +165,35 @@ theorem delete_refused (g : G) (sub : List Nat) (r : Ref) (hr : r ∈ g.refs) (h
   simp [delete, bind, Except.bind, this _ hrep]
 
 end Capella.Delete
+
+namespace Capella.Delete
+
+theorem mem_purgedCarriers (es : List Exit) (cs : List Nat) (c : Nat)
+    (h : Exit.dropLinkElems cs ∈ es) (hc : c ∈ cs) : c ∈ purgedCarriers es := by
+  induction es with
+  | nil => simp at h
+  | cons e es ih =>
+    rcases List.mem_cons.mp h with rfl | h'
+    · simp [purgedCarriers, hc]
+    · cases e <;> simp [purgedCarriers, ih h']
+
+/-- a link element IS the reference: every link element that pointed into the deleted set is itself
+removed from the model (not merely stripped of its target attribute) -/
+theorem delete_removes_link_elements' (g g' : G) (sub : List Nat) (h : delete g sub = .ok g')
+    (r : Ref) (hr : r ∈ g.refs) (ht : r.target ∈ sub) (hk : r.kind = .linkElem) :
+    r.carrier ∉ g'.elems := by
+  unfold delete at h
+  simp only [bind, Except.bind, pure, Except.pure] at h
+  split at h
+  · cases h
+  · rename_i exits hex
+    simp only [Except.ok.injEq] at h
+    subst h
+    have hrep : r ∈ reported g sub := by simp [reported, hr, ht]
+    obtain ⟨_, _, c3⟩ := enterAll_covers g _ exits hex r hrep hr
+    obtain ⟨cs, hcs, hc⟩ := c3 hk
+    intro hm
+    simp only [List.mem_filter, List.mem_append, not_or, decide_eq_true_eq] at hm
+    exact hm.2.2 (mem_purgedCarriers exits cs r.carrier hcs hc)
+
+end Capella.Delete
